@@ -39,6 +39,7 @@ func checkC08(p *Prog, l *Ledger) {
 	checkSemanticFilters(p, l, pi)
 	checkErrorOrigin(p, l, pi)
 	checkRunPipeline(p, l, "C08/S4-not-run")
+	checkFlagWriters(p, l, "C08/S4-flag-writers") // nobody but the reporter raises — and nobody at all clears — the syntax-error flag between the phases
 	// lexer totality (progress): every cycle of the scanner graph contains a consumption
 	if run := exploreScanToken(p); run != nil {
 		if cyc := nonConsumingCycle(run.m.G, func(e *Event) bool { return e.Op == "consume" }); cyc != "" {
